@@ -1,0 +1,49 @@
+//go:build verif
+
+// Contracts for package hashing (compiled only with -tags=verif; checked by /verif/bin/govc). Properties C09, C01, C02.
+package hashing
+
+//@ func GetHasher() (h)
+//@   trusted
+//@   pure
+//@   allocates h
+//@   ensures [empty] h != nil && stream[ref(h)] == ""
+
+//@ func HashString(str) (r)
+//@   pure
+//@   ensures [digest_of_argument] r == H(str)
+
+//@ func HashBytes(bytes) (r)
+//@   pure
+//@   ensures [digest_of_argument] r == H(stringOf(arr(bytes), len(bytes)))
+
+//@ func HashStrings(strList) (r)
+//@   pure
+//@   ensures [fn_of_bag] r == H(joinOf(sortseq(bagOf(old(strList))), ","))
+
+//@ func sorted(s) (r)
+//@   pure
+//@   ensures [fn_of_bag] r == joinOf(sortseq(bagOf(old(s))), ",")
+
+//@ func sortedKeyValue(m) (r)
+//@   pure
+//@   ensures [fn_of_map] r == joinOf(sortseq(kvBag(keys(m), vals(m), keys(m))), ",")
+//@ loop #1
+//@   invariant [entries_are_seen_keys] bagOf(entries) == kvBag(keys(m), vals(m), seen()) && (forall k string :: seen(k) ==> has(m, k))
+
+//@ func hashTargetDefinition(target, dependencyHashes) (h, err)
+//@   pure
+//@   ensures [stream_eq_spec] err == nil ==> h == H(defStream(old(target), old(dependencyHashes), keys(target.Fingerprint), vals(target.Fingerprint), config.Global.OS, config.Global.Arch))
+
+//@ func HashFiles(absolutePackagePath, fileList) (h, err)
+//@   pure
+//@   ensures [stream_eq_spec] err == nil ==> h == H(encFilesArr(arr(sortseq(bagOf(old(fileList)))), len(fileList), absolutePackagePath))
+//@ loop #1
+//@   invariant [prefix] stream[ref(combinedHasher)] == encFilesArr(arr(fileList), rangeindex + 1, absolutePackagePath)
+
+//@ func GetTargetChangeHash(target, dependencyHashes) (k, err)
+//@   pure
+//@   ensures [key_shape] err == nil ==> k == ite(len(target.Inputs) == 0,
+//@        H(defStream(old(target), old(dependencyHashes), keys(target.Fingerprint), vals(target.Fingerprint), config.Global.OS, config.Global.Arch)),
+//@        H(defStream(old(target), old(dependencyHashes), keys(target.Fingerprint), vals(target.Fingerprint), config.Global.OS, config.Global.Arch)) + "_" +
+//@        H(encFilesArr(arr(sortseq(bagOf(old(target.Inputs)))), len(target.Inputs), pathJoin(config.Global.WorkspaceRoot, target.Label.Package))))
